@@ -38,8 +38,79 @@ def http_client_calls(prog):
     return out
 
 
+def addresses_canonical(ctx, rule):
+    """Typestate over every address object built in the egress module:
+    between `ipaddress.ip_address(...)` and the first use of the value as a
+    member of the candidate set (return / append / yield / `in <network>`)
+    the IPv4-mapped form is looked at (`.ipv4_mapped`).  Holds wherever the
+    construction lives (validate_url itself or a helper it delegates to),
+    including "fast paths" for address literals."""
+    prog = ctx.prog
+    n = 0
+    for f in prog.funcs_in_module(EG):
+        cfg = ctx.cfg(f)
+        for nd, c in cfg.calls(lambda c: U.call_name(c) == 'ip_address'):
+            n += 1
+            st = nd.ast
+            var = None
+            if isinstance(st, ast.Assign) and st.value is c and \
+                    isinstance(st.targets[0], ast.Name):
+                var = st.targets[0].id
+            if var is None:
+                rule.fail(ctx.construct(f, c, extra='address used without '
+                                        'canonicalisation'),
+                          'an address object is handed on as constructed '
+                          '(%s): an IPv4-mapped IPv6 literal such as '
+                          '[::ffff:169.254.169.254] is compared as an IPv6 '
+                          'address and matches no denied IPv4 network'
+                          % norm(st, 70), ctx.loc(f, c))
+                continue
+            looks = [x for x in cfg.nodes if x.ast is not None and any(
+                (isinstance(y, ast.Attribute) and y.attr == 'ipv4_mapped' and
+                 dotted(y.value) == var) or
+                (isinstance(y, ast.Call) and U.call_name(y) == 'getattr' and
+                 len(y.args) >= 2 and dotted(y.args[0]) == var and
+                 isinstance(y.args[1], ast.Constant) and
+                 y.args[1].value == 'ipv4_mapped')
+                for y in cfg.own_nodes(x))]
+            uses = []
+            for x in cfg.reach([s_ for s_, k in nd.succ if k != 'exc'],
+                               follow_exc=False):
+                if x.ast is None or x in looks:
+                    continue
+                for y in cfg.own_nodes(x):
+                    esc = (isinstance(y, ast.Return) and y.value is not None
+                           and var in U.names_in(y.value)) or \
+                          (isinstance(y, ast.Call) and
+                           U.call_name(y) in ('append', 'add', 'extend')
+                           and any(var in U.names_in(a) for a in y.args)) or \
+                          (isinstance(y, ast.Compare) and
+                           isinstance(y.ops[0], (ast.In, ast.NotIn)) and
+                           dotted(y.left) == var) or \
+                          (isinstance(y, (ast.Yield,)) and y.value is not None
+                           and var in U.names_in(y.value))
+                    if esc:
+                        uses.append(x)
+            bad = [u for u in uses
+                   if not any(cfg.dominates(l_, u) for l_ in looks)]
+            rule.check(not bad, ctx.construct(f, c, extra='unwrapped before '
+                                              'use'),
+                       'the address built here reaches %s without its '
+                       'IPv4-mapped form having been looked at'
+                       % (norm(bad[0].ast, 60) if bad else ''),
+                       ctx.loc(f, c))
+    if n < 1:
+        raise AnalysisError('C19.R5: no ip_address construction found')
+    return n
+
+
 def run(ctx):
     prog, sd = ctx.prog, ctx.sd
+
+    r5 = ctx.rule('R5', 'every address object built in the egress module is '
+                  'brought to its canonical (IPv4-unwrapped) form before it '
+                  'is compared or handed on', 'typestate')
+    addresses_canonical(ctx, r5)
 
     # ---- R1 validate before send ----------------------------------------
     r1 = ctx.rule('R1', 'every workflow-controlled HTTP request is '
